@@ -2,6 +2,75 @@ N = 'notation.go'
 S = 'signer/signer.go'
 SP = 'signer/plugin.go'
 A = 'plugin/proto/algorithm.go'
+
+# ---- building blocks of the variants in the generalised shapes (see the end of VARIANTS) ----
+_REQ = '\tsignReq := &signature.SignRequest{\n'
+_NOW = '\t\tSigningTime:            time.Now(),\n'
+_NOW_LOCALS = '\t\tSigningTime:            signingTime,\n\t\tExpiry:                 expiry,\n'
+_AHEAD = '\tsigningTime := time.Now()\n\tvar expiry time.Time\n\tif opts.ExpiryDuration != 0 {\n\t\texpiry = signingTime.Add(opts.ExpiryDuration)\n\t}\n'
+_PATCH_EXPIRY = '\tif opts.ExpiryDuration != 0 {\n\t\tsignReq.Expiry = signReq.SigningTime.Add(opts.ExpiryDuration)\n\t}\n'
+_SWAP = [
+ (S, 'func getDescriptor(ks signature.KeySpec, genDesc notation.BlobDescriptorGenerator)', 'func getDescriptor(genDesc notation.BlobDescriptorGenerator, ks signature.KeySpec)'),
+ (S, 'getDescriptor(ks, genDesc)', 'getDescriptor(genDesc, ks)'),
+ (SP, 'getDescriptor(ks, descGenFunc)', 'getDescriptor(descGenFunc, ks)'),
+]
+_INLINE = 'payload := envelope.Payload{TargetArtifact: envelope.SanitizeTargetArtifact(desc)}\n\tpayloadBytes, err := json.Marshal(payload)\n\tif err != nil {\n\t\treturn nil, nil, fmt.Errorf("envelope payload can\'t be marshalled: %w", err)\n\t}\n'
+_HELPER_FN = 'func marshalPayload(desc ocispec.Descriptor) ([]byte, error) {\n\tpayload := envelope.Payload{TargetArtifact: envelope.SanitizeTargetArtifact(desc)}\n\tpayloadBytes, err := json.Marshal(payload)\n\tif err != nil {\n\t\treturn nil, fmt.Errorf("envelope payload can\'t be marshalled: %w", err)\n\t}\n\treturn payloadBytes, nil\n}\n\n'
+_GETDESC = 'func getDescriptor(ks signature.KeySpec'
+def _HELPER(helper=_HELPER_FN, plugin_call='marshalPayload(desc)'):
+    call = 'payloadBytes, err := %s\n\tif err != nil {\n\t\treturn nil, nil, err\n\t}\n'
+    return [
+     (S, _INLINE + '\tvar signingAgentId string', call % 'marshalPayload(desc)' + '\tvar signingAgentId string'),
+     (S, _GETDESC, helper + _GETDESC),
+     (SP, _INLINE + '\n\t// Execute plugin sign command.', call % plugin_call + '\n\t// Execute plugin sign command.'),
+    ]
+_GEN = """func getDescriptorFunc(ctx context.Context, reader io.Reader, contentMediaType string, userMetadata map[string]string) BlobDescriptorGenerator {
+	return func(hashAlgo digest.Algorithm) (ocispec.Descriptor, error) {
+		digester := hashAlgo.Digester()
+		bytes, err := io.Copy(digester.Hash(), reader)
+		if err != nil {
+			return ocispec.Descriptor{}, err
+		}
+		targetDesc := ocispec.Descriptor{
+			MediaType: contentMediaType,
+			Digest:    digester.Digest(),
+			Size:      bytes,
+		}
+		return addUserMetadataToDescriptor(ctx, targetDesc, userMetadata)
+	}
+}
+"""
+_GEN_METHOD = """type blobDescriber struct {
+	ctx              context.Context
+	reader           io.Reader
+	contentMediaType string
+	userMetadata     map[string]string
+}
+
+func (b *blobDescriber) describe(hashAlgo digest.Algorithm) (ocispec.Descriptor, error) {
+	digester := hashAlgo.Digester()
+	bytes, err := io.Copy(digester.Hash(), b.reader)
+	if err != nil {
+		return ocispec.Descriptor{}, err
+	}
+	targetDesc := ocispec.Descriptor{
+		MediaType: b.contentMediaType,
+		Digest:    digester.Digest(),
+		Size:      bytes,
+	}
+	return addUserMetadataToDescriptor(b.ctx, targetDesc, b.userMetadata)
+}
+
+func getDescriptorFunc(ctx context.Context, reader io.Reader, contentMediaType string, userMetadata map[string]string) BlobDescriptorGenerator {
+	describer := &blobDescriber{
+		ctx:              ctx,
+		reader:           reader,
+		contentMediaType: contentMediaType,
+		userMetadata:     userMetadata,
+	}
+	return describer.describe
+}
+"""
 VARIANTS = [
  dict(name='F11-reintroduced', file=N, expect='flagged(reader/)',
       find='''	var payload envelope.Payload
@@ -101,4 +170,51 @@ VARIANTS = [
 }
 
 // SignatureAlgorithm is'''),
+
+ # ---- shapes accepted since the rules follow values / helpers instead of one body's printed form ----
+ # (1) expiry computed ahead of the request (local signing time + local expiry, both put into the literal)
+ dict(name='benign-expiry-computed-ahead', expect='silent', edits=[
+      (S, _REQ, _AHEAD + _REQ), (S, _NOW, _NOW_LOCALS), (S, _PATCH_EXPIRY, '')]),
+ dict(name='expiry-ahead-other-clock', expect='flagged(payload/expiry)', edits=[
+      (S, _REQ, _AHEAD.replace('expiry = signingTime.Add(', 'expiry = time.Now().Add(') + _REQ), (S, _NOW, _NOW_LOCALS), (S, _PATCH_EXPIRY, '')]),
+ dict(name='expiry-ahead-unguarded', expect='flagged(payload/expiry)', edits=[
+      (S, _REQ, '\tsigningTime := time.Now()\n\texpiry := signingTime.Add(opts.ExpiryDuration)\n' + _REQ), (S, _NOW, _NOW_LOCALS), (S, _PATCH_EXPIRY, '')]),
+ dict(name='expiry-ahead-request-reads-clock-again', expect='flagged(payload/expiry)', edits=[
+      (S, _REQ, _AHEAD + _REQ), (S, _NOW, '\t\tSigningTime:            time.Now(),\n\t\tExpiry:                 expiry,\n'), (S, _PATCH_EXPIRY, '')]),
+ dict(name='expiry-ahead-default-when-none-requested', expect='flagged(payload/expiry)', edits=[
+      (S, _REQ, _AHEAD.replace('var expiry time.Time\n', 'expiry := signingTime.Add(24 * time.Hour)\n') + _REQ), (S, _NOW, _NOW_LOCALS), (S, _PATCH_EXPIRY, '')]),
+ dict(name='expiry-ahead-never-set', expect='flagged(payload/expiry)', edits=[
+      (S, _REQ, '\tsigningTime := time.Now()\n\tvar expiry time.Time\n' + _REQ), (S, _NOW, _NOW_LOCALS), (S, _PATCH_EXPIRY, '')]),
+ # (2) the key spec is not the first parameter of the digest-algorithm lookup
+ dict(name='benign-getdescriptor-params-swapped', expect='silent', edits=_SWAP),
+ dict(name='getdescriptor-swapped-sha256-always', expect='flagged(payload/blob-digest-algorithm)', edits=_SWAP + [
+      (S, '\treturn genDesc(digestAlg)', '\t_ = digestAlg\n\treturn genDesc(algorithms[crypto.SHA256])')]),
+ dict(name='getdescriptor-swapped-miss-falls-back', expect='flagged(payload/blob-digest-algorithm)', edits=_SWAP + [
+      (S, '\tif !ok {\n\t\treturn ocispec.Descriptor{}, fmt.Errorf("unknown hashing algo %v", ks.SignatureAlgorithm().Hash())\n\t}\n', '\tif !ok {\n\t\tdigestAlg = algorithms[crypto.SHA256]\n\t}\n')]),
+ # (3) one marshalling helper shared by both signers
+ dict(name='benign-marshal-helper', expect='silent', edits=_HELPER()),
+ dict(name='marshal-helper-unsanitized', expect='flagged(payload/signed-descriptor)', edits=_HELPER(
+      helper=_HELPER_FN.replace('envelope.SanitizeTargetArtifact(desc)', 'desc'))),
+ dict(name='marshal-helper-caller-passes-other-descriptor', expect='flagged(payload/signed-descriptor/(*ngo/signer.PluginSigner).generateSignatureEnvelope)', edits=_HELPER(
+      plugin_call='marshalPayload(ocispec.Descriptor{Digest: desc.Digest, Size: desc.Size})')),
+ dict(name='marshal-helper-returns-other-bytes', expect='flagged(payload/bytes-signed)', edits=_HELPER(
+      helper=_HELPER_FN.replace('\treturn payloadBytes, nil\n', '\tdescBytes, _ := json.Marshal(payload.TargetArtifact)\n\t_ = payloadBytes\n\treturn descBytes, nil\n'))),
+ dict(name='marshal-helper-payload-type-differs', expect='flagged(payload/content-type-written/(*ngo/signer.GenericSigner).Sign)', edits=_HELPER() + [
+      (S, '\t\t\tContentType: envelope.MediaTypePayloadV1,\n', '\t\t\tContentType: "application/vnd.cncf.notary.payload.v2+json",\n')]),
+ dict(name='marshal-helper-one-signer-only', expect='flagged(payload/signers#count)', edits=_HELPER(
+      plugin_call='json.Marshal(desc)')),
+ dict(name='generator-size-of-other-reader', file=N, expect='flagged(blob-descriptor/generator-body)',
+      find='bytes, err := io.Copy(digester.Hash(), reader)', replace='bytes, err := io.Copy(digester.Hash(), io.LimitReader(reader, 1<<20))'),
+ # (4) the descriptor generator is a bound method of an object filled by the builder
+ dict(name='benign-generator-bound-method', file=N, expect='silent', find=_GEN, replace=_GEN_METHOD),
+ dict(name='generator-method-fixed-media-type', file=N, expect='flagged(blob-descriptor/generator-body)', find=_GEN,
+      replace=_GEN_METHOD.replace('MediaType: b.contentMediaType,', 'MediaType: "application/octet-stream",')),
+ dict(name='generator-method-builder-alters-media-type', file=N, expect='flagged(blob-descriptor/generator-body)', find=_GEN,
+      replace=_GEN_METHOD.replace('contentMediaType: contentMediaType,', 'contentMediaType: strings.ToLower(contentMediaType),')),
+ dict(name='generator-method-field-rewritten', file=N, expect='flagged(blob-descriptor/generator-body)', find=_GEN,
+      replace=_GEN_METHOD.replace('\tdigester := hashAlgo.Digester()\n', '\tdigester := hashAlgo.Digester()\n\tb.contentMediaType, _, _ = strings.Cut(b.contentMediaType, ";")\n')),
+ dict(name='generator-method-fixed-algorithm', file=N, expect='flagged(blob-descriptor/generator-algorithm)', find=_GEN,
+      replace=_GEN_METHOD.replace('hashAlgo.Digester()', 'digest.SHA256.Digester()')),
+ dict(name='generator-method-size-of-other-reader', file=N, expect='flagged(blob-descriptor/generator-body)', find=_GEN,
+      replace=_GEN_METHOD.replace('io.Copy(digester.Hash(), b.reader)', 'io.Copy(digester.Hash(), io.LimitReader(b.reader, 1<<20))')),
 ]
